@@ -398,6 +398,14 @@ func Main(t *testing.T, h Harness) {
 	seed, from, to := envU("VERIF_SEED", 1), envU("VERIF_FROM", 0), envU("VERIF_TO", 1000)
 	wall := time.Duration(envU("VERIF_WALL", 3600)) * time.Second
 	maxViol := int(envU("VERIF_MAXVIOL", 6))
+	// signatures listed in known_findings.json are counted, not shrunk or recorded: they must not use up the
+	// per-worker quota of recorded violations and so keep a new one from being recorded
+	knownSigs := map[string]bool{}
+	for _, k := range strings.Split(os.Getenv("VERIF_KNOWN_SIGS"), "\n") {
+		if k != "" {
+			knownSigs[k] = true
+		}
+	}
 	replayDir := os.Getenv("VERIF_REPLAY_DIR")
 	memLimit := envU("VERIF_MEMLIMIT", 1<<30)
 	wo.Seed, wo.From, wo.To = seed, from, to
@@ -456,7 +464,7 @@ func Main(t *testing.T, h Harness) {
 			sig := h.sig(res.Violation)
 			wo.Oracles[sig]++
 			perSig[sig]++
-			if perSig[sig] <= 2 && len(wo.Violations) < maxViol {
+			if perSig[sig] <= 2 && len(wo.Violations) < maxViol && !knownSigs[sig] {
 				min := h.shrink(tt, res.Tape, tier, sig, 8*time.Second)
 				rr := h.runOnce(tt, simrt.NewTape(min), tier, true)
 				rec := ViolationRecord{Property: h.ID, Oracle: res.Violation.Oracle, Signature: sig, Detail: res.Violation.Detail, Seed: seed, RunIndex: i, TapeLen: len(res.Tape), MinLen: len(min)}
